@@ -564,6 +564,8 @@ class SymBytes:
             return mkstr(self.items)
         if enc in ("utf8",) and errors == "strict":
             return utf8_decode(self)
+        if enc in ("utf8",) and errors == "ignore":
+            return utf8_decode(self, ignore_truncated_tail=True)
         if enc == "ascii" and errors == "strict":
             for k, it in enumerate(self.items):
                 if not bool(it < 128):
@@ -713,14 +715,24 @@ def utf8_encode(s):
     return mkbytes(out)
 
 
-def utf8_decode(b):
-    """exact model of bytes.decode('utf8', 'strict') by forking on the sequence structure (RFC 3629)"""
+class _TruncatedTail(Exception):
+    pass
+
+
+def utf8_decode(b, ignore_truncated_tail=False):
+    """exact model of bytes.decode('utf8', 'strict') by forking on the sequence structure (RFC 3629).
+    With ignore_truncated_tail (errors='ignore'): a sequence cut off by the end of the data is dropped;
+    any other malformation has no model here (Unsupported) - enough for truncated prefixes of valid text."""
     items = b.items
     n = len(items)
     out = []
     i = 0
 
     def err(k, why="invalid"):
+        if ignore_truncated_tail:
+            if why == "unexpected end of data":
+                raise _TruncatedTail()
+            raise Unsupported("utf8 decode(errors='ignore') of data that is not a truncated prefix of valid UTF-8")
         raise UnicodeDecodeError("utf-8", b"?", k, k + 1, why)
 
     def cont(k):
@@ -776,6 +788,21 @@ def utf8_decode(b):
         else:
             err(i, "invalid start byte")
     return mkstr(out)
+
+
+_utf8_decode_strict = utf8_decode
+
+
+def utf8_decode(b, ignore_truncated_tail=False):  # noqa: F811
+    try:
+        return _utf8_decode_strict(b, ignore_truncated_tail)
+    except _TruncatedTail:
+        # drop the incomplete trailing sequence: find its start (last lead octet)
+        items = b.items
+        k = len(items) - 1
+        while k >= 0 and bool((items[k] >= 0x80) & (items[k] <= 0xBF)):
+            k -= 1
+        return _utf8_decode_strict(SymBytes(items[:k]) if k > 0 else SymBytes([]), ignore_truncated_tail) if k > 0 else ""
 
 
 class SymArrayB:
